@@ -74,7 +74,16 @@ def strategy():
            ['create_trial', 'o0', 's0',
             {'state': 'REQUESTED', 'final': None, 'client_id': '', 'k': 1,
              'md': []}]],
-      ]), st.lists(op, max_size=6)).map(lambda t: t[0] + t[1])
+          # the last calls before the victim failed (rolled back): a metadata
+          # update naming a missing trial, a duplicate CreateStudy
+          [['create_study', 'o0', 's0'], ['suggest', 'o0', 's0', 'w1', 2],
+           ['update_md', 'o0', 's0', [['study', '', 'k', 'v'],
+                                      [7, '', 'k', 'v']]]],
+          [['create_study', 'o0', 's0'], ['suggest', 'o0', 's0', 'w1', 2],
+           ['create_study', 'o0', 's0'],
+           ['update_md', 'o0', 's0', [[9, ':a', 'j', 'w']]]],
+      ]), st.one_of(st.lists(op, max_size=6), st.just([]))).map(
+          lambda t: t[0] + t[1])
   return st.fixed_dictionaries({
       'prefix': prefix, 'victim': victim,
       'over': st.sampled_from([0, 0, 2]),  # policy over-delivery for suggest
